@@ -496,11 +496,17 @@ func (v *Visitor) visit(s *df.AnalyzerState, entrypoint *df.CallNodeArg) error {
 				graphNode.CalleeSummary = df.BuildSummary(s, graphNode.Callee())
 			}
 
+			var calleeReturns map[ssa.Instruction][]*df.ReturnValNode
 			if graphNode.CalleeSummary == nil {
-				panic(fmt.Errorf("node's callee summary is nil: %v", graphNode))
+				if s.IsReachableFunction(graphNode.Callee()) {
+					panic(fmt.Errorf("node's callee summary is nil: %v", graphNode))
+				}
+				// The callee is not reachable, it has no summary: it is ignored, as in the taint analysis.
+			} else {
+				calleeReturns = graphNode.CalleeSummary.Returns
 			}
 
-			for _, rets := range graphNode.CalleeSummary.Returns {
+			for _, rets := range calleeReturns {
 				for _, ret := range rets {
 					// We add the caller's node to the trace (callstack) when flowing to the callee's return node
 					nextNodeWithTrace := df.NodeWithTrace{
